@@ -10,6 +10,7 @@ Rules (DESIGN.md section 3, C19):
   CTX-WRITERS      protocol fields of the context written only by the protocol
   NO-SHARED-STATE  no writable file-scope/static state besides the context pointer (thread-local under MULTI)
   INSTALL-MUST     (c19_install.py) every normal return of a parameter setter passed the installation sequence
+  SET-ORDER        (c19_order.py) a setter stores a context field before calling anything that (transitively) reads it
   HIST-FREE        (c19_hist.py) no context field is updated from its own old value before the same call assigned it
 """
 from .. import ir, xcfg, engines
@@ -722,8 +723,9 @@ def selfcheck(ctx, prog, chk):
     analyse(ctx, prog, chk, floors=False)
     from . import c19_install
     c19_install.analyse(ctx, prog, chk)
-    from . import c19_hist
+    from . import c19_hist, c19_order
     c19_hist.analyse(ctx, prog, chk)
+    c19_order.analyse(ctx, prog, chk)
 
 
 def run(ctx, chk):
@@ -741,8 +743,10 @@ def run(ctx, chk):
     m = analyse(ctx, multi, chk, multi=True)
     from . import c19_install
     c19_install.run(ctx, chk)
-    from . import c19_hist
+    from . import c19_hist, c19_order
     c19_hist.run(ctx, chk)
+    no = c19_order.analyse(ctx, ctx.program("BASE"), chk)
+    chk.floor("SET-ORDER", "calls in setters that read a field stored later", no, 5)
     if chk.tier == "thorough":
         for cfg in ("P255", "P381"):
             p = ctx.program(cfg)
